@@ -894,6 +894,101 @@ Definition reg_after (hist : list world) : registry := fold_left reg_load hist [
 (* the environment of a subprocess spawned after the configurations `hist` were loaded (oldest first) *)
 Definition tool_env_at (hist : list world) (e : env) : env := spawn_env (reg_after hist) e.
 
+(* ---- the SPAWN PATH: which variables a child inherits, as a function of how it is spawned --------------------------------
+   Three spawn sites: rip-tools builtins/shell.rs `run_command` (the `bash` tool and its alias `shell`: tool command
+   envelope, provider-requested call), ripd tasks/pipes.rs `run_pipes_task` and tasks/pty.rs `run_pty_task` (POST /tasks,
+   `rip tasks spawn`; `execution_mode` absent = pipes).  Each one builds a command that starts from the environment of the
+   authority and then, in this order: [`cwd` given: resolve_path - absolute paths and `..` components are refused, nothing
+   is spawned - else current_dir(resolved) | `cwd` absent: current_dir(workspace root)]; for every name of
+   secret_env_names(): env_remove(name); the call's own `env`: env(k, v) for each pair; spawn (fails when the directory
+   does not exist).  std::process::Command and portable_pty::CommandBuilder as far as the environment goes: the child starts
+   from the parent's environment, env_remove(k) deletes k, env(k, v) sets k (the last call wins). *)
+Inductive exec_mode := XPipes | XPty.
+Inductive spawn_via := VTool | VTask (mode : option exec_mode).
+Inductive spawn_site := STool | SPipes | SPty.
+Definition site_of (v : spawn_via) : spawn_site :=
+  match v with
+  | VTool => STool
+  | VTask None => SPipes                      (* payload.execution_mode.unwrap_or(Pipes) *)
+  | VTask (Some XPipes) => SPipes
+  | VTask (Some XPty) => SPty
+  end.
+Record spawn_req := mkSpawn {
+  sp_via : spawn_via;
+  sp_cwd : option str;          (* the `cwd` argument *)
+  sp_dir_exists : bool;         (* a fact of the file system: <workspace root>/<cwd> is a directory *)
+  sp_env : option env;          (* the `env` argument of the call *)
+  sp_title : option str }.
+Definition req_env (q : spawn_req) : env := match sp_env q with Some ov => ov | None => [] end.
+
+Fixpoint split_on (c : N) (s cur : str) : list str :=
+  match s with
+  | [] => [rev cur]
+  | x :: r => if x =? c then rev cur :: split_on c r [] else split_on c r (x :: cur)
+  end.
+(* resolve_path (rip-tools builtins/mod.rs, ripd tasks/logs.rs): is_absolute, any component == ParentDir *)
+Definition cwd_refused (raw : str) : bool :=
+  (match raw with x :: _ => x =? 47 | [] => false end) || existsb (str_eqb [46; 46]) (split_on 47 raw []).
+
+Definition env_remove (e : env) (k : str) : env := filter (fun kv => negb (str_eqb (fst kv) k)) e.
+Definition env_set (e : env) (kv : str * str) : env := kv :: env_remove e (fst kv).
+Record cmd := mkCmd { cm_env : env; cm_dir : option str }.
+Definition cmd_new (e : env) : cmd := mkCmd e None.
+Definition cmd_env_remove (c : cmd) (k : str) : cmd := mkCmd (env_remove (cm_env c) k) (cm_dir c).
+Definition cmd_env_set (c : cmd) (kv : str * str) : cmd := mkCmd (env_set (cm_env c) kv) (cm_dir c).
+Definition cmd_dir (c : cmd) (d : str) : cmd := mkCmd (cm_env c) (Some d).
+
+(* the text of one site.  strip_when_cwd: the removal loop also runs on the branch where `cwd` was given - true at all three
+   sites (T1: gen_spawn_facts, every site removes unconditionally); the seeded change C19-8 made it false in run_pipes_task.
+   missing_dir_fails: std::process::Command::spawn fails with ENOENT when the directory does not exist (tool, pipes task);
+   portable_pty::CommandBuilder::as_command silently falls back to the HOME directory (pty task): a child is spawned. *)
+Definition site_cmd (strip_when_cwd missing_dir_fails : bool) (r : registry) (e : env) (q : spawn_req) : option cmd :=
+  let c0 := cmd_new e in
+  match sp_cwd q with
+  | Some raw =>
+      if cwd_refused raw then None
+      else
+        let c1 := cmd_dir c0 raw in
+        let c2 := if strip_when_cwd then fold_left cmd_env_remove (stripped_names r) c1 else c1 in
+        let c3 := fold_left cmd_env_set (req_env q) c2 in
+        if sp_dir_exists q || negb missing_dir_fails then Some c3 else None
+  | None =>
+      let c1 := cmd_dir c0 [] in
+      let c2 := fold_left cmd_env_remove (stripped_names r) c1 in
+      Some (fold_left cmd_env_set (req_env q) c2)
+  end.
+Definition tool_cmd := site_cmd true true.      (* rip-tools builtins/shell.rs run_command *)
+Definition pipes_cmd := site_cmd true true.     (* ripd tasks/pipes.rs run_pipes_task *)
+Definition pty_cmd := site_cmd true false.      (* ripd tasks/pty.rs run_pty_task *)
+Definition spawn_cmd (r : registry) (e : env) (q : spawn_req) : option cmd :=
+  match site_of (sp_via q) with
+  | STool => tool_cmd r e q
+  | SPipes => pipes_cmd r e q
+  | SPty => pty_cmd r e q
+  end.
+(* the environment of the child; None: nothing is spawned *)
+Definition child_env (r : registry) (e : env) (q : spawn_req) : option env := option_map cm_env (spawn_cmd r e q).
+(* the same as a function of the STRIPPED environment and of the request alone *)
+Definition missing_dir_fails (s : spawn_site) : bool := match s with SPty => false | _ => true end.
+Definition child_env_of (base : env) (q : spawn_req) : option env :=
+  match sp_cwd q with
+  | Some raw =>
+      if cwd_refused raw then None
+      else if sp_dir_exists q || negb (missing_dir_fails (site_of (sp_via q))) then Some (fold_left env_set (req_env q) base) else None
+  | None => Some (fold_left env_set (req_env q) base)
+  end.
+(* what the code must NOT do (seeded change C19-8): in run_pipes_task the removal loop sits in the `else` branch of the `cwd`
+   handling - a pipes task with a `cwd` keeps the whole environment *)
+Definition spawn_cmd_cwd_unstripped (r : registry) (e : env) (q : spawn_req) : option cmd :=
+  match site_of (sp_via q) with
+  | SPipes => site_cmd false true r e q
+  | STool => site_cmd true true r e q
+  | SPty => site_cmd true false r e q
+  end.
+(* the property of a spawn path: a credential variable reaches a child only when the call itself supplies it *)
+Definition spawn_path_strips (sp : registry -> env -> spawn_req -> option cmd) : Prop :=
+  forall r e q c k, sp r e q = Some c -> In k (stripped_names r) -> getenv (cm_env c) k = getenv (rev (req_env q)) k.
+
 (* what the code must NOT do (seeded change C19-4, "spawn-path optimisation"): the merged list is built at the FIRST
    spawn and reused - names registered by later loads are never removed from a subprocess environment *)
 Fixpoint spawn_envs_memo (r : registry) (memo : option (list str)) (e : env) (evs : list aevent) : list env :=
@@ -1051,7 +1146,7 @@ Definition reason_text (r : N) : str :=
 
 (* cs_before: the configurations this authority process loaded EARLIER (multi-step scenarios: the files before the edit) *)
 Record case := mkCase { cs_world : world; cs_before : list world; cs_cli : option cli_flags; cs_thread : bool;
-                        cs_outcome : N; cs_obs : list N }.
+                        cs_outcome : N; cs_spawns : list spawn_req; cs_obs : list N }.
 (* the world the authority lives in: the scenario's, or what `rip run --provider ..` makes of it *)
 Definition case_world (c : case) : world :=
   match cs_cli c with
@@ -1135,13 +1230,33 @@ Definition enc_report (w : world) : list N :=
 Definition enc_visible (seen : env) (e : env) : list N :=
   nlen e :: map (fun kv => match getenv seen (fst kv) with Some _ => 1 | None => 0 end) e.
 
-(* outcome 99: only the diagnostic surface was exercised (GET /config/doctor, `rip config doctor`);
+(* the spawn grid: the names whose visibility is compared - the authority's environment in order, then the names only a call's
+   `env` supplies, in order of first appearance *)
+Definition view_names (e : env) (qs : list spawn_req) : list str :=
+  fold_left (fun acc q => fold_left (fun acc kv => if existsb (str_eqb (fst kv)) acc then acc else acc ++ [fst kv]) (req_env q) acc)
+            qs (map fst e).
+Definition has_pair (l : env) (k v : str) : bool := existsb (fun kv => str_eqb (fst kv) k && str_eqb (snd kv) v) l.
+(* 0 not in the child's environment, 1 there with the authority's value, 2 there with the value of the call's `env`, 3 other *)
+Definition view_code (e : env) (q : spawn_req) (ce : env) (k : str) : N :=
+  match getenv ce k with
+  | None => 0
+  | Some v => if has_pair (req_env q) k v then 2 else if has_pair e k v then 1 else 3
+  end.
+Definition enc_child_view (e : env) (names : list str) (q : spawn_req) (ce : option env) : list N :=
+  match ce with None => [0] | Some ce => 1 :: map (view_code e q ce) names end.
+
+(* outcome 95: the spawn grid - the report + per spawn what the child saw of every variable;
+   outcome 99: only the diagnostic surface was exercised (GET /config/doctor, `rip config doctor`);
    outcome 98: multi-step - a subprocess was spawned, the files were edited, the edited configuration was loaded, a
    subprocess printed its environment: the report after the edit + what the probe saw; 97: the same with NOTHING
    loading the edited configuration before the probe was spawned (control); 96: 98 + the probe was a provider-driven run *)
 Definition model_obs (c : case) : list N :=
   let w := case_world c in
   if cs_outcome c =? 99 then enc_report w else
+  if cs_outcome c =? 95 then
+    enc_report w ++ nlen (cs_spawns c)
+      :: flat_map (fun q => enc_child_view (w_env w) (view_names (w_env w) (cs_spawns c)) q
+                                           (child_env (reg_after (cs_before c ++ [w])) (w_env w) q)) (cs_spawns c) else
   if cs_outcome c =? 98 then enc_report w ++ enc_visible (tool_env_at (cs_before c ++ [w]) (w_env w)) (w_env w) else
   if cs_outcome c =? 96 then
     (* the probe is a provider-driven run under the edited configuration: the request that opens it carries the key and
